@@ -225,7 +225,7 @@ func (k *Walker) readBackAll(maxPos int) {
 
 func runC05(c *core.Ctx) {
 	RunIn(c, "", 16, 2048)
-	n := c.Pick(110, 2500)
+	n := c.Pick(400, 3000)
 	c.RunHistories(n, Registry["C05"].Mons, func(w *core.World) {
 		wts := map[string]int{
 			"edit-new": 12, "edit-mod": 8, "edit-rm": 3, "add": 14, "rm": 5, "commit": 10, "commit-all": 6,
